@@ -150,14 +150,44 @@ pub fn check(ctx: &Ctx) -> i32 {
             }
         }
     });
+    // timestamps off the audio sample grid at every standard sample rate (capture clocks do not
+    // count in samples): 5 frames at the codec's cadence, each displaced by 0-30 microseconds
+    let rates: Vec<u32> = oracle::frames::AAC_RATES.iter().copied().filter(|&r| r < 65536).collect();
+    let tr = par_items(&rates, ctx.seed, |idx, &rate, t| {
+        let mut k = 0u64;
+        for fast in [true, false] {
+            for v0 in [0.0, 2.5] {
+                for jit in [[0.0, 30e-6, 20e-6, 30e-6, 30e-6], [0.0, 0.0, 11e-6, 0.0, 29e-6], [0.0; 5]] {
+                    let cfg = Cfg { audio: Some(oracle::model::AudioCfg { codec: ACodec::AacLc, rate, channels: 1 }), ..Cfg::basic(VCodec::H264, Some(ACodec::AacLc), fast) };
+                    let mut ops = vec![];
+                    for i in 0..2u32 {
+                        ops.push(Op::WV { pts: T(v0 + i as f64 / 30.0), data: Bytes::new(video_frame(VCodec::H264, i == 0, i == 0, i + 1, 5).0), key: i == 0 });
+                    }
+                    let mut ok = true;
+                    for (j, dj) in jit.iter().enumerate() {
+                        let at = v0 + j as f64 * 1024.0 / rate as f64 + dj;
+                        ok &= tick_is_robust(at);
+                        ops.push(Op::WA { pts: T(at), data: Bytes::new(audio_frame(ACodec::AacLc, j as u32, 6).0) });
+                    }
+                    k += 1;
+                    if ok {
+                        judge(&cfg, &ops, (60_000 + idx as u64, k), t);
+                    } else {
+                        t.count("skipped_tie_sensitive_timestamps", 1);
+                    }
+                }
+            }
+        }
+    });
     let mut tally = tally;
     tally.merge(tj);
+    tally.merge(tr);
     finish(
         ctx,
         &tally,
         Meta {
             level: "model_checking",
-            rule: format!("every A/V history over: first video decode time {{0, 1/30, 1, 10 s}} x first video composition offset {{0, +2 frames}} x audio start minus first video presentation {{0, 1 tick, 1024/48000, 0.25, 3 s}} x 2-3 video frames x 2-3 audio frames x audio step pattern {{1024/48000, 1024/44100, 0.02, 0, (0, 1024/48000), (0.02, 0)}}, plus runs of 8 and 12 audio frames at the 48 kHz and 44.1 kHz AAC spacings, plus every audio step sequence of 2..{jmax} steps over {{600, 1200, 1800, 3000}} ticks ({n_jitter} sequences x AAC/Opus), x {{AAC, Opus}} x both layouts x codecs; executed on the real muxer; per-track presentation timelines rebuilt from stts/ctts (+ edit list if present, empty edits and media_time honoured) and every audio sample's presentation time relative to the first video frame compared with the submitted difference (tolerance 1 tick). Distinct by output bytes."),
+            rule: format!("every A/V history over: first video decode time {{0, 1/30, 1, 10 s}} x first video composition offset {{0, +2 frames}} x audio start minus first video presentation {{0, 1 tick, 1024/48000, 0.25, 3 s}} x 2-3 video frames x 2-3 audio frames x audio step pattern {{1024/48000, 1024/44100, 0.02, 0, (0, 1024/48000), (0.02, 0)}}, plus runs of 8 and 12 audio frames at the 48 kHz and 44.1 kHz AAC spacings, plus every audio step sequence of 2..{jmax} steps over {{600, 1200, 1800, 3000}} ticks ({n_jitter} sequences x AAC/Opus), plus every standard AAC sample rate below 65536 Hz x 3 sub-sample displacement patterns (0-30 microseconds) x 2 start times x both layouts, x {{AAC, Opus}} x both layouts x codecs; executed on the real muxer; per-track presentation timelines rebuilt from stts/ctts (+ edit list if present, empty edits and media_time honoured) and every audio sample's presentation time relative to the first video frame compared with the submitted difference (tolerance 1 tick). Distinct by output bytes."),
             bound: "2-3 video frames, 2-3 audio frames (8 and 12 for the two constant spacings)".into(),
             exhaustive: true,
             assumptions: vec!["the known finding C09/no-start-offset is matched only when neither track has an edit list and every audio sample is off by exactly the lost start offset; any other deviation is reported as a violation".into()],
